@@ -21,7 +21,7 @@ pub fn module_started(name: &str) {
     events::record(events::Op::Custom(1), MODULES.lock().unwrap().len() as u32);
 }
 
-fn write_events(trace: &[u32], panicked: bool) {
+fn write_events(trace: &[u32], rands: &[u64], panicked: bool) {
     let Ok(path) = std::env::var("SIM_EVENTS") else {
         return;
     };
@@ -40,6 +40,8 @@ fn write_events(trace: &[u32], panicked: bool) {
     out.push_str(&trace.len().to_string());
     out.push_str(",\"trace\":[");
     out.push_str(&trace.iter().map(|t| t.to_string()).collect::<Vec<_>>().join(","));
+    out.push_str("],\"rands\":[");
+    out.push_str(&rands.iter().map(|t| t.to_string()).collect::<Vec<_>>().join(","));
     out.push_str("],\"events\":");
     out.push_str(&evs.len().to_string());
     out.push_str(",\"event_hash\":\"");
@@ -96,7 +98,7 @@ where
         shuttle::Runner::new(scheduler, cfg).run(body);
     }));
     let taken = trace.snapshot();
-    write_events(&taken, outcome.is_err());
+    write_events(&taken, &trace.rands(), outcome.is_err());
     if let Err(payload) = outcome {
         // same observable behaviour as a panicking `main`: message already printed by the hook
         std::panic::resume_unwind(payload);
